@@ -45,7 +45,9 @@ FilterLx == <<
    LAnd(<<T1(RelA), T1(RelB)>>), LOr(<<T1(RelA), T1(RelB)>>), LOr(<<T1(RelA), LAnd(<<T1(RelB), Cmp("==", RelA, Lit(JInt(1)))>>)>>),
    LAnd(<<LParen(FALSE, LOr(<<T1(RelA), T1(RelB)>>)), LTest(TRUE, RelA)>>), LParen(TRUE, LAnd(<<T1(RelA), T1(RelB)>>)),
    LOr(<<LParen(TRUE, T1(RelA)), LParen(FALSE, Cmp("==", RelA, RelB)), T1(RelB)>>), LAnd(<<T1(RelA), T1(RelB), LTest(TRUE, AbsA)>>),
-   LParen(FALSE, LParen(TRUE, LParen(FALSE, T1(RelA)))) >>
+   LParen(FALSE, LParen(TRUE, LParen(FALSE, T1(RelA)))),
+   Cmp(">", EFn("count", <<ERel(<<N1(cX), F1(LAnd(<<T1(RelA), T1(RelB), LTest(TRUE, ERel(<<N1(cC)>>))>>))>>)>>), Lit(JInt(0))),   \* count(@.x[?@.a && @.b && !@.c]) > 0
+   T1(EFn("match", <<EFn("value", <<ERel(<<F1(LOr(<<T1(RelA), T1(RelB), T1(AbsA)>>))>>)>>), Lit(JStr(cA))>>)) >>
 EscLx == << Cmp("==", RelA, Lit(JStr(nSq))), Cmp("==", RelA, Lit(JStr(nDq))), Cmp("==", RelA, Lit(JStr(nBs))), Cmp("==", RelA, Lit(JStr(nLf))),
             Cmp("==", ERel(<<N1(nSq)>>), Lit(JStr(nSupp))), T1(EFn("match", <<RelA, Lit(JStr(<<97, 92, 46>>))>>)), T1(ERel(<<N1(nDq), N1(nBs)>>)) >>
 FilterSegs == [i \in 1..Len(FilterLx) |-> F1(FilterLx[i])]
@@ -67,7 +69,13 @@ BadLx == << T1(EFn("length", <<ERel(<<>>)>>)),                                  
             T1(Lit(JInt(1))), T1(Lit(JStr(cA))), LTest(TRUE, Lit(JBool(TRUE))),       \* literal as test
             T1(EFn("length", <<RelA, RelB>>)), Cmp("==", EFn("length", <<>>), Lit(JInt(1))),   \* arity
             T1(EFn("match", <<RelA>>)), T1(EFn("search", <<RelA, RelB, RelA>>)),
-            Cmp("==", EFn("count", <<ELx(Cmp("==", RelA, Lit(JInt(1))))>>), Lit(JInt(1))) >>   \* count(@.a == 1)
+            Cmp("==", EFn("count", <<ELx(Cmp("==", RelA, Lit(JInt(1))))>>), Lit(JInt(1))),     \* count(@.a == 1)
+            Cmp("==", EFn("length", <<ERel(<<Desc(<<SName(cA)>>)>>)>>), Lit(JInt(1))),         \* length(@..a) == 1   descendant is not singular
+            T1(EFn("match", <<ERel(<<Desc(<<SName(cA)>>)>>), Lit(JStr(cX))>>)),                \* match(@..a, 'x')
+            T1(EFn("search", <<EAbs(<<N1(cA), Desc(<<SIndex(0)>>)>>), Lit(JStr(cX))>>)),       \* search($.a..[0], 'x')
+            Cmp("==", EFn("length", <<ERel(<<N1(cA), Desc(<<SName(cB)>>)>>)>>), Lit(JInt(1))),
+            Cmp("==", ERel(<<I1(BIG + 1)>>), Lit(JInt(1))), Cmp("==", EAbs(<<N1(cA), I1(0 - BIG - 1)>>), Lit(JInt(1))),     \* out-of-range index inside a singular query
+            T1(ERel(<<I1(BIG + 2)>>)), Cmp(">", EFn("length", <<ERel(<<I1(0 - BIG - 2)>>)>>), Lit(JInt(0))) >>
 BadSegs == [i \in 1..Len(BadLx) |-> F1(BadLx[i])]
            \o <<I1(BIG + 1), I1(0 - BIG - 1), Child(<<SSlice(BIG + 1, ABSENT, ABSENT)>>), Child(<<SSlice(ABSENT, 0 - BIG - 1, ABSENT)>>),
                 Child(<<SSlice(ABSENT, ABSENT, BIG + 1)>>), Child(<<SSlice(1, 2, 0 - BIG - 2)>>)>>
